@@ -11,6 +11,7 @@ mod mon;
 mod pcref;
 mod props;
 mod refevm;
+mod scenarios;
 mod statehist;
 mod world;
 mod wrun;
